@@ -310,6 +310,7 @@ pub fn def() -> PropertyDef {
             str_sub::<F>((10_000, 200_000)),
             prover_sub::<R>((400, 8000)),
             prover_sub::<F>((1500, 40_000)),
+            crate::fuzzdec::corpus_sub("decode"),
         ],
     }
 }
